@@ -663,6 +663,14 @@ class TCPHiddenServiceEndpoint(object):
                 # could not be created
                 yield defer.maybeDeferred(self.tcp_listening_port.stopListening)
                 self.tcp_listening_port = None
+                # ...nor the half-created service in our config: a
+                # later listen() has to create it afresh (for its own
+                # local port) instead of adopting this one
+                if not self.ephemeral:
+                    mine = os.path.abspath(self.hidden_service_dir)
+                    for hs in list(self._config.HiddenServices):
+                        if getattr(hs, 'dir', None) == mine:
+                            self._config.HiddenServices.remove(hs)
                 raise
 
         else:
